@@ -44,6 +44,7 @@ class RefSdoServer:
         self.block_upload_size_indicated = block_upload_size_indicated   # s bit of the block upload initiate response
         self.segment_fill = segment_fill        # data bytes per upload segment, cycled (0..7; None = 7): CiA 301 lets a
                                                 # server fill any segment, not only the last one, partly (n > 0 with c = 0)
+        self.check_size = True                  # a server may ignore the announced size (it is informative): False = commit what came
         self.refuse = refuse                    # callable(kind, mux, data|None) -> abort code | None
         self.read_hook = None                   # callable(mux) -> bytes | None: value computed at upload time
         self.violations = []                    # (mechanism, message)
@@ -307,7 +308,7 @@ class RefSdoServer:
         self._zero(data, 3, "block download end")
         self.steps_seen.add("bdl_end")
         payload = bytes(self.buf[:len(self.buf) - n]) if n else bytes(self.buf)
-        if self.size is not None and len(payload) != self.size:
+        if self.size is not None and len(payload) != self.size and self.check_size:
             self._v("client-block-size-mismatch",
                     f"declared size {self.size}, received {len(self.buf)} segment bytes, end frame n={n} -> {len(payload)} bytes")
             return self._abort(ABORT_LENGTH)
